@@ -29,3 +29,13 @@ Definition baryF (ms : list float) (comps : list (list float)) (na : nat) : list
   flat_map (fun qs => fst (bary_fwd FNum ms qs na)) comps ++ [snd (bary_fwd FNum ms (hdl comps) na)].
 Definition baryI (ms : list float) (comps : list (list float)) (M : float) (na : nat) : list float :=
   flat_map (fun bs => bary_inv FNum ms bs M na) comps.
+
+(* MERCURIUS/TRACE shifts: 3 position comps, 3 velocity comps; forward returns comps ++ com_pos ++ com_vel *)
+Definition mercF (ms : list float) (pos vel : list (list float)) (na : nat) : list float :=
+  flat_map (fun qs => merc_fwd_pos FNum qs) pos ++ flat_map (fun vs => merc_fwd_vel FNum ms vs na) vel
+  ++ map (fun qs => merc_com FNum ms qs na) pos ++ map (fun vs => merc_com FNum ms vs na) vel.
+Fixpoint map2f {A B C} (f : A -> B -> C) (a : list A) (b : list B) : list C :=
+  match a, b with x :: r, y :: s => f x y :: map2f f r s | _, _ => [] end.
+Definition mercI (ms : list float) (pos vel : list (list float)) (cp cv : list float) (na : nat) : list float :=
+  concat (map2f (fun hs c => merc_inv_pos FNum ms hs c na) pos cp) ++
+  concat (map2f (fun ws c => merc_inv_vel FNum ms ws c na) vel cv).
